@@ -214,6 +214,13 @@ let oracle (toks : string list) (obs : string) : (string * bool) list =
   let checks = (match stamp_oracle ops (J_server.parse_obs obs) None with Some b -> ("C18.messages_carry_expected_timestamp_and_stream", b) :: checks | None -> checks) in
   let checks = (match ack_oracle ops (J_server.parse_obs obs) with Some b -> ("C17.ack_exactly_when_due", b) :: checks | None -> checks) in
   let checks = c10_oracles ops (J_server.parse_obs obs) @ checks in
+  (* C19: a chunk size the protocol cannot express (0, above 2^31-1) in the client configuration is refused: the session never
+     reports an accepted connection as if the value had been honoured (the value is applied - and refused - when the connect result
+     arrives) *)
+  let bad_chunk = List.exists (fun op -> match List.filter (fun x -> x <> "") (String.split_on_char ' ' op) with
+      | "cfg" :: _ :: _ :: _ :: chunk :: _ -> (match int_of_string_opt chunk with Some n -> n = 0 || n > 2147483647 | None -> false)
+      | _ -> false) ops in
+  let checks = if bad_chunk then ("C19.client_config_chunk_refused", not (List.exists (List.exists (List.exists (function Other "E:ConnAccepted" -> true | _ -> false))) (J_server.parse_obs obs))) :: checks else checks in
   if J_server.has_failed_call obs then checks @ [ "C18.decodable_despite_failed_call", decodable pk (fun _ _ -> true) ]
   else
     checks @ [ "C18.decodable", decodable pk (fun _ _ -> true);
